@@ -288,6 +288,10 @@ func (g *Gen) fill(k Kind, depth int, hidden bool) *Node {
 					a = Arg{Kind: ArgStringer, S: g.SG.Str(false)}
 				}
 			}
+			if g.Cfg.Verbs {
+				a.Front = g.T.Bool(1, 5)
+				a.Glue = g.T.Bool(1, 5)
+			}
 			if g.Cfg.Verbs && g.T.Bool(1, 3) {
 				switch a.Kind {
 				case ArgSafeFmt, ArgStringer:
